@@ -413,7 +413,7 @@ def fp_drpcserver_server_Server_Serve : List String :=
     "call:tracker.Run", "call:s.ServeOne", "if", "&&", "!=", "!=", "call:s.opts.Log"]
 def fp_drpcserver_server_Server_handleRPC : List String :=
   ["call:s.handler.HandleRPC", "if", "!=", "return", "call:errs.Wrap", "call:stream.SendError", 
-    "return", "call:errs.Wrap", "call:stream.CloseSend"]
+    "call:stream.CloseSend", "call:stream.Cancel", "return", "call:errs.Wrap"]
 def fp_drpcmux_handle_rpc_Mux_HandleRPC : List String :=
   ["index", "if", "u!", "return", "call:drpc.ProtocolError.New", "s:unknown rpc: %q", "call:interface", 
     "if", "!=", "call:reflect.New().Interface", "call:reflect.New", "call:data.in1.Elem", "if", 
